@@ -98,6 +98,9 @@ macro_rules! write_case {
         write_case!($name, $prefix, $n, $u, false);
     };
     ($name:ident, $prefix:expr, $n:expr, $u:literal, $two:expr) => {
+        write_case!($name, $prefix, $n, $u, $two, None, None);
+    };
+    ($name:ident, $prefix:expr, $n:expr, $u:literal, $two:expr, $script:expr, $fail:expr) => {
         /// One `write` of `$n` symbolic bytes from the state carried after the (concrete)
         /// prefix `$prefix`; symbolic accept sizes, one injected error at a symbolic call.
         #[kani::proof]
@@ -110,14 +113,29 @@ macro_rules! write_case {
                 // shape "text, non-whitespace C0 control, text": two printable runs in one call
                 kani::assume(buf[1] < 0x20 && !matches!(buf[1], 0x09 | 0x0A | 0x0C | 0x0D));
             }
-            let accept: [usize; 4] = kani::any();
-            // accept sizes {0, 1, 2, 3, everything}
-            kani::assume(accept[0] <= 3 || accept[0] == usize::MAX);
-            kani::assume(accept[1] <= 3 || accept[1] == usize::MAX);
-            kani::assume(accept[2] <= 3 || accept[2] == usize::MAX);
-            kani::assume(accept[3] <= 3 || accept[3] == usize::MAX);
-            let fail_at: usize = kani::any();
-            kani::assume(fail_at < 4 || fail_at == NEVER);
+            let script_opt: Option<[usize; 4]> = $script;
+            let fail_opt: Option<usize> = $fail;
+            let accept: [usize; 4] = match script_opt {
+                // a concrete inner-writer script (quick tier): the buffer stays symbolic
+                Some(a) => a,
+                None => {
+                    let a: [usize; 4] = kani::any();
+                    // accept sizes {0, 1, 2, 3, everything}
+                    kani::assume(a[0] <= 3 || a[0] == usize::MAX);
+                    kani::assume(a[1] <= 3 || a[1] == usize::MAX);
+                    kani::assume(a[2] <= 3 || a[2] == usize::MAX);
+                    kani::assume(a[3] <= 3 || a[3] == usize::MAX);
+                    a
+                }
+            };
+            let fail_at: usize = match fail_opt {
+                Some(f) => f,
+                None => {
+                    let f: usize = kani::any();
+                    kani::assume(f < 4 || f == NEVER);
+                    f
+                }
+            };
             let kind = any_kind();
             arm(false);
             let mut script = Script::new(accept, fail_at, kind);
@@ -193,6 +211,17 @@ macro_rules! write_case {
     };
 }
 
+const ALL: usize = usize::MAX;
+// concrete scripts (quick tier): accept-everything, a short write of 0 / 1, an error at the
+// first / second inner call -- buffer bytes and error kind symbolic
+write_case!(write_s_all_utf8, b"\xe2", 1, 5, false, Some([ALL; 4]), Some(NEVER));
+write_case!(write_s_short0_utf8, b"\xe2", 1, 5, false, Some([0, ALL, ALL, ALL]), Some(NEVER));
+write_case!(write_s_err0_utf8, b"\xe2", 1, 5, false, Some([ALL; 4]), Some(0));
+write_case!(write_s_short0_ground, b"", 1, 5, false, Some([0, ALL, ALL, ALL]), Some(NEVER));
+write_case!(write_s_err0_csi, b"\x1b[", 1, 5, false, Some([ALL; 4]), Some(0));
+write_case!(write_s_short1_ground2, b"", 2, 5, false, Some([1, ALL, ALL, ALL]), Some(NEVER));
+write_case!(write_s_err1_two_runs, b"", 3, 6, true, Some([ALL; 4]), Some(1));
+write_case!(write_s_short0_second_run, b"", 3, 6, true, Some([ALL, 0, ALL, ALL]), Some(NEVER));
 write_case!(write_1_ground, b"", 1, 5);
 write_case!(write_1_escape, b"\x1b", 1, 5);
 write_case!(write_1_csi, b"\x1b[", 1, 5);
